@@ -1,0 +1,130 @@
+//go:build verif
+
+package bed
+
+import (
+	"bytes"
+	"strconv"
+)
+
+// Property-level theorems for /verif/govc, written as client programs of the
+// contracted functions. Never called; verified modularly (each call is
+// replaced by the callee's contract).
+
+//@ theorem C04.roundtrip
+//@   props C04
+//@   cases b.N in 3..12
+//@   loop 1
+//@     invariant 0 <= k && k <= len(b.BlockSizes) && b.N > 10
+//@     invariant k < len(b.BlockSizes) ==> k < splitN(splitF(line, 9, 10), ',') && splitS(splitF(line, 9, 10), ',', k) == lws(b.BlockSizes, k)
+//@     invariant k == len(b.BlockSizes) && k > 0 ==> splitN(splitF(line, 9, 10), ',') == k
+//@     invariant forall m int :: 0 <= m && m < k ==> strEq(splitF(splitF(line, 9, 10), ',', m), itoa(b.BlockSizes[m]))
+//@   loop 2
+//@     invariant 0 <= k && k <= len(b.BlockStarts) && b.N > 11
+//@     invariant k < len(b.BlockStarts) ==> k < splitN(splitF(line, 9, 11), ',') && splitS(splitF(line, 9, 11), ',', k) == lws(b.BlockStarts, k)
+//@     invariant k == len(b.BlockStarts) && k > 0 ==> splitN(splitF(line, 9, 11), ',') == k
+//@     invariant forall m int :: 0 <= m && m < k ==> strEq(splitF(splitF(line, 9, 11), ',', m), itoa(b.BlockStarts[m]))
+//@   requires b != nil && 3 <= b.N && b.N <= 12
+//@   requires forall j int :: 0 <= j && j < len(b.Chrom) ==> b.Chrom[j] != 9 && b.Chrom[j] != 10 && b.Chrom[j] != 13
+//@   requires len(b.Chrom) > 0 ==> b.Chrom[0] != '#'
+//@   requires forall j int :: 0 <= j && j < len(b.Name) ==> b.Name[j] != 9 && b.Name[j] != 10 && b.Name[j] != 13
+//@   requires b.Strand == "" || b.Strand == "+" || b.Strand == "-" || b.Strand == "."
+//@   requires b.N == 10 ==> b.BlockCount == 0
+//@   requires b.N == 11 ==> b.BlockCount == 0 && len(b.BlockSizes) == 0
+//@   requires b.N == 12 ==> len(b.BlockSizes) == b.BlockCount && len(b.BlockStarts) == b.BlockCount
+// A record whose first N fields are populated (text fields free of TAB/CR/LF,
+// chrom not starting with '#', strand one of "+", "-", ".", "", block lists
+// consistent with the block count) is written by Write as one line that the
+// reader parses back into a record with the same N and the same first N
+// fields, all remaining fields zero.
+func thmRoundTrip(b *BED) {
+	buf := &bytes.Buffer{}
+	b.Write(buf)
+	rd := newReader(buf)
+	g, err := rd.read()
+	// layout of the line (ghost arithmetic; the same sums as in the contract of Write)
+	e0 := len(b.Chrom)
+	e1 := e0 + 1 + len(strconv.Itoa(b.ChromStart))
+	e2 := e1 + 1 + len(strconv.Itoa(b.ChromEnd))
+	e3 := e2 + 1 + len(b.Name)
+	e4 := e3 + 1 + len(strconv.Itoa(b.Score))
+	e5 := e4 + 1 + len(b.Strand)
+	e6 := e5 + 1 + len(strconv.Itoa(b.ThickStart))
+	e7 := e6 + 1 + len(strconv.Itoa(b.ThickEnd))
+	c1 := e7 + 1 + len(strconv.Itoa(int(b.ItemRGB[0])))
+	c2 := c1 + 1 + len(strconv.Itoa(int(b.ItemRGB[1])))
+	e8 := c2 + 1 + len(strconv.Itoa(int(b.ItemRGB[2])))
+	e9 := e8 + 1 + len(strconv.Itoa(b.BlockCount))
+	//@ assert buf.out[e0] == 9 && buf.out[e1] == 9
+	//@ assert len(line) >= e2
+	//@ assert splitS(line, 9, 0) == 0 && splitE(line, 9, 0) == e0
+	//@ assert splitS(line, 9, 1) == e0 + 1 && splitE(line, 9, 1) == e1
+	//@ assert splitS(line, 9, 2) == e1 + 1 && splitE(line, 9, 2) == e2
+	//@ assert b.N > 3 ==> splitS(line, 9, 3) == e2 + 1 && splitE(line, 9, 3) == e3
+	//@ assert b.N > 4 ==> splitS(line, 9, 4) == e3 + 1 && splitE(line, 9, 4) == e4
+	//@ assert b.N > 5 ==> splitS(line, 9, 5) == e4 + 1 && splitE(line, 9, 5) == e5
+	//@ assert b.N > 6 ==> splitS(line, 9, 6) == e5 + 1 && splitE(line, 9, 6) == e6
+	//@ assert b.N > 7 ==> splitS(line, 9, 7) == e6 + 1 && splitE(line, 9, 7) == e7
+	//@ assert b.N > 8 ==> splitS(line, 9, 8) == e7 + 1 && splitE(line, 9, 8) == e8
+	//@ assert b.N > 9 ==> splitS(line, 9, 9) == e8 + 1 && splitE(line, 9, 9) == e9
+	//@ assert b.N > 10 ==> splitS(line, 9, 10) == e9 + 1 && splitE(line, 9, 10) == e9 + 1 + lw(b.BlockSizes, len(b.BlockSizes))
+	//@ assert b.N > 11 ==> splitS(line, 9, 11) == e9 + 1 + lw(b.BlockSizes, len(b.BlockSizes)) + 1
+	//@ assert b.N > 11 ==> splitE(line, 9, 11) == e9 + 1 + lw(b.BlockSizes, len(b.BlockSizes)) + 1 + lw(b.BlockStarts, len(b.BlockStarts))
+	//@ assert splitN(line, 9) == b.N
+	// the fields are the renderings
+	//@ assert strEq(splitF(line, 9, 0), b.Chrom)
+	//@ assert strEq(splitF(line, 9, 1), itoa(b.ChromStart))
+	//@ assert strEq(splitF(line, 9, 2), itoa(b.ChromEnd))
+	//@ assert b.N > 3 ==> strEq(splitF(line, 9, 3), b.Name)
+	//@ assert b.N > 4 ==> strEq(splitF(line, 9, 4), itoa(b.Score))
+	//@ assert b.N > 5 ==> strEq(splitF(line, 9, 5), b.Strand)
+	//@ assert b.N > 6 ==> strEq(splitF(line, 9, 6), itoa(b.ThickStart))
+	//@ assert b.N > 7 ==> strEq(splitF(line, 9, 7), itoa(b.ThickEnd))
+	//@ assert b.N > 9 ==> strEq(splitF(line, 9, 9), itoa(b.BlockCount))
+	// the RGB field splits at its two commas
+	//@ assert b.N > 8 ==> len(splitF(line, 9, 8)) == e8 - (e7 + 1)
+	//@ assert b.N > 8 ==> splitF(line, 9, 8)[c1 - (e7 + 1)] == ',' && splitF(line, 9, 8)[c2 - (e7 + 1)] == ','
+	//@ assert b.N > 8 ==> splitE(splitF(line, 9, 8), ',', 0) == c1 - (e7 + 1)
+	//@ assert b.N > 8 ==> splitS(splitF(line, 9, 8), ',', 1) == c1 - e7 && splitE(splitF(line, 9, 8), ',', 1) == c2 - (e7 + 1)
+	//@ assert b.N > 8 ==> splitS(splitF(line, 9, 8), ',', 2) == c2 - e7 && splitE(splitF(line, 9, 8), ',', 2) == e8 - (e7 + 1)
+	//@ assert b.N > 8 ==> splitN(splitF(line, 9, 8), ',') == 3
+	//@ assert b.N > 8 ==> strEq(splitF(splitF(line, 9, 8), ',', 0), itoa(b.ItemRGB[0]))
+	//@ assert b.N > 8 ==> strEq(splitF(splitF(line, 9, 8), ',', 1), itoa(b.ItemRGB[1]))
+	//@ assert b.N > 8 ==> strEq(splitF(splitF(line, 9, 8), ',', 2), itoa(b.ItemRGB[2]))
+	// the block lists split at their commas (induction over the elements: ghost loops)
+	if b.N > 10 {
+		//@ assert len(splitF(line, 9, 10)) == lw(b.BlockSizes, len(b.BlockSizes))
+		for k := 0; k < len(b.BlockSizes); k++ {
+			//@ assert lw(b.BlockSizes, k + 1) == lwe(b.BlockSizes, k) && lwe(b.BlockSizes, k) <= len(splitF(line, 9, 10))
+			//@ assert forall j int :: lws(b.BlockSizes, k) <= j && j < lwe(b.BlockSizes, k) ==> splitF(line, 9, 10)[j] == itoa(b.BlockSizes[k])[j - lws(b.BlockSizes, k)]
+			//@ assert k + 1 < len(b.BlockSizes) ==> buf.out[e9 + 1 + lw(b.BlockSizes, k + 1)] == ','
+			//@ assert k + 1 < len(b.BlockSizes) ==> lw(b.BlockSizes, k + 1) < len(splitF(line, 9, 10)) && splitF(line, 9, 10)[lw(b.BlockSizes, k + 1)] == ','
+			//@ assert lwe(b.BlockSizes, k) == len(splitF(line, 9, 10)) || splitF(line, 9, 10)[lwe(b.BlockSizes, k)] == ','
+			//@ assert splitE(splitF(line, 9, 10), ',', k) == lwe(b.BlockSizes, k)
+			//@ assert strEq(splitF(splitF(line, 9, 10), ',', k), itoa(b.BlockSizes[k]))
+		}
+	}
+	if b.N > 11 {
+		//@ assert len(splitF(line, 9, 11)) == lw(b.BlockStarts, len(b.BlockStarts))
+		for k := 0; k < len(b.BlockStarts); k++ {
+			//@ assert lw(b.BlockStarts, k + 1) == lwe(b.BlockStarts, k) && lwe(b.BlockStarts, k) <= len(splitF(line, 9, 11))
+			//@ assert forall j int :: lws(b.BlockStarts, k) <= j && j < lwe(b.BlockStarts, k) ==> splitF(line, 9, 11)[j] == itoa(b.BlockStarts[k])[j - lws(b.BlockStarts, k)]
+			//@ assert k + 1 < len(b.BlockStarts) ==> buf.out[e9 + 1 + lw(b.BlockSizes, len(b.BlockSizes)) + 1 + lw(b.BlockStarts, k + 1)] == ','
+			//@ assert k + 1 < len(b.BlockStarts) ==> lw(b.BlockStarts, k + 1) < len(splitF(line, 9, 11)) && splitF(line, 9, 11)[lw(b.BlockStarts, k + 1)] == ','
+			//@ assert lwe(b.BlockStarts, k) == len(splitF(line, 9, 11)) || splitF(line, 9, 11)[lwe(b.BlockStarts, k)] == ','
+			//@ assert splitE(splitF(line, 9, 11), ',', k) == lwe(b.BlockStarts, k)
+			//@ assert strEq(splitF(splitF(line, 9, 11), ',', k), itoa(b.BlockStarts[k]))
+		}
+	}
+	// so the line is accepted and parsed into the same first N fields, the rest zero
+	//@ assert err == nil && g != nil
+	//@ assert g.N == b.N && g.Chrom == b.Chrom && g.ChromStart == b.ChromStart && g.ChromEnd == b.ChromEnd
+	//@ assert g.Name == (b.N > 3 ? b.Name : "") && g.Score == (b.N > 4 ? b.Score : 0) && g.Strand == (b.N > 5 ? b.Strand : "")
+	//@ assert g.ThickStart == (b.N > 6 ? b.ThickStart : 0) && g.ThickEnd == (b.N > 7 ? b.ThickEnd : 0)
+	//@ assert forall k int :: 0 <= k && k < 3 ==> g.ItemRGB[k] == (b.N > 8 ? b.ItemRGB[k] : 0)
+	//@ assert g.BlockCount == (b.N > 9 ? b.BlockCount : 0)
+	//@ assert len(g.BlockSizes) == (b.N > 10 ? len(b.BlockSizes) : 0) && len(g.BlockStarts) == (b.N > 11 ? len(b.BlockStarts) : 0)
+	//@ assert b.N > 10 ==> forall k int :: 0 <= k && k < len(b.BlockSizes) ==> g.BlockSizes[k] == b.BlockSizes[k]
+	//@ assert b.N > 11 ==> forall k int :: 0 <= k && k < len(b.BlockStarts) ==> g.BlockStarts[k] == b.BlockStarts[k]
+	_, _, _, _, _, _ = g, err, e8, e9, c1, c2
+}
